@@ -262,6 +262,17 @@ def r_link(prog, tier):
             if not ok and f.fq in DISCARD:
                 ok = True
                 detail = 'DISCARD table: ' + DISCARD[f.fq]
+            if not ok and f.node.name.startswith('_') and f.cls is None:
+                # a private helper that only a DISCARD function (and the helper itself) calls does that function's work
+                callers = set()
+                for g in prog.all_funcs():
+                    for c_ in walk_own(g.node):
+                        if isinstance(c_, ast.Call) and prog.callee(c_, g) == (f.module.name, f.node.name):
+                            callers.add(g.fq)
+                callers.discard(f.fq)
+                if callers and all(c_ in DISCARD for c_ in callers):
+                    ok = True
+                    detail = 'DISCARD table (helper of %s): %s' % (sorted(callers)[0], DISCARD[sorted(callers)[0]])
             if not ok:
                 loose = [p.node for p in pars if path(p.x) is None or path(d.x) is None or path(p.x) == path(d.x)
                          or _same_value(f, d.x, d.node, p.x, p.node)]
@@ -1080,6 +1091,9 @@ def _fresh_root_ok(prog, f, name):
     return missing
 
 
+ADDS_ROOT = {'transform.add_topnode': 'add_topnode puts one new TOP node above every tree it is given'}
+
+
 def r_root(prog, tier):
     names = list(prog.registry('transform', 'TRANSFORMATIONS')) + ROOT_EXTRA
     funcs = [prog.func('transform', n) for n in names]
@@ -1135,6 +1149,10 @@ def r_root(prog, tier):
             if kind == 'ROOT':
                 detail = 'the returned name is the first parameter, rebound only through root-preserving ' \
                          'calls or the climb-to-root idiom'
+                if f.fq in ADDS_ROOT:
+                    ok = False
+                    detail = 'this return hands back the tree as it came (%s): on this path no node is added, although %s' % (
+                        [('' if a.pol else 'not ') + unparse(a.ast)[:40] for a in f.cfg.assumes_at(node.id)], ADDS_ROOT[f.fq])
             elif kind == 'NONE' and f.fq in FILTERS:
                 ok = True
                 detail = 'FILTER table: ' + FILTERS[f.fq]
@@ -1403,6 +1421,8 @@ def _raising_selection(f, e):
                 need = [('truthy', "%s.data['split']" % y, True), ('truthy', "%s.data['head_block']" % y, False)]
                 notroot = ('cmp', y, '!=', root) in conds or ('cmp', root, '!=', y) in conds
                 miss = [str(x) for x in need if x not in conds]
+                if miss and any(c_[0] in ('opaque', 'truthy') and '(' in str(c_[1]) and y in str(c_[1]) for c_ in conds):
+                    return None, 'the selection of `%s` goes through a predicate call this rule does not look into' % y
                 if miss or not notroot:
                     return False, 'selection of `%s` lacks condition(s): %s%s' % (y, ', '.join(miss), '' if notroot else ' node != root')
                 return True, 'selected by a comprehension under `split`, `not head_block`, `!= %s`' % root
@@ -1414,6 +1434,8 @@ def _raising_selection(f, e):
         root = f.params[0]
         notroot = ('cmp', y, '!=', root) in facts or ('cmp', root, '!=', y) in facts
         miss = [str(x) for x in need if x not in facts]
+        if miss and any(c_[0] in ('opaque', 'truthy') and '(' in str(c_[1]) and y in str(c_[1]) for c_ in facts):
+            return None, 'the selection of `%s` goes through a predicate call this rule does not look into' % y
         if miss or not notroot:
             return False, 'selection of `%s` lacks guard(s): %s%s' % (y, ', '.join(miss),
                                                                        '' if notroot else ' node != root')
@@ -1578,7 +1600,7 @@ def r_punctsel(prog, tier):
         evs = link_events(prog, f)
         dets = [e for e in evs if e.kind == 'DET']
         if not dets:
-            raise Unrecognised('%s has no detach event' % f.fq)
+            raise Unrecognised('%s has no detach event' % f.fq, partial=obs)
         # every candidate is looked at: the loop over the candidates is never left early
         for d in dets[:1]:
             lp = cfg.nodes[d.node].loops
